@@ -95,7 +95,7 @@ func vfHostileClient(plan *vfCliPlan, log *vfCliLog) func(ctx context.Context, a
 		go func() {
 			select {
 			case <-ctx.Done():
-				if plan.FailKind == "garbagereading" {
+				if plan.FailKind == "garbagereading" || plan.FailKind == "eofreading" {
 					// this one takes a while to die (a process that handles SIGTERM late)
 					select {
 					case <-time.After(20 * time.Millisecond):
@@ -171,6 +171,25 @@ func vfHostileClient(plan *vfCliPlan, log *vfCliLog) func(ctx context.Context, a
 				_, _ = out.Write([]byte{0, 0, 0, 9, 0xff, 0xff, 0xff, 0xff, 0xff, 0xff, 0xff, 0xff, 0xff})
 				flush()
 				return nil
+			case "eofreading":
+				// closes its output (the runner sees a clean end) but keeps consuming its stdin until that is closed
+				log.ev("client_closes_stdout")
+				flush()
+				_ = out.Close()
+				for {
+					var pre [4]byte
+					if _, err := io.ReadFull(rd, pre[:]); err != nil {
+						return nil
+					}
+					buf := make([]byte, binary.BigEndian.Uint32(pre[:]))
+					if _, err := io.ReadFull(rd, buf); err != nil {
+						return nil
+					}
+					log.mu.Lock()
+					log.Read = append(log.Read, vfPeekName(buf))
+					log.Events = append(log.Events, "client_read_after_closing_stdout")
+					log.mu.Unlock()
+				}
 			case "garbagereading":
 				// like a process that ignores the runner's abort for a while: emits garbage, then keeps
 				// consuming its stdin (answering nothing) until the runner closes it
@@ -333,7 +352,7 @@ func vfRunMuxHistory(rep *verifkit.Report, h int, stall bool) {
 		names[i] = fmt.Sprintf("Suite %d/case-%d", h%7, i)
 	}
 	// never-answered names may be sent twice (deliberate duplicates)
-	plan := &vfCliPlan{FailKind: verifkit.Pick(rng, []string{"none", "none", "exit0", "exit1", "garbage", "garbagereading", "garbagereading", "oversize", "cut", "cut", "ghost", "stopreading", "earlyanswer", "dupanswer"}),
+	plan := &vfCliPlan{FailKind: verifkit.Pick(rng, []string{"none", "none", "exit0", "exit1", "garbage", "garbagereading", "garbagereading", "eofreading", "eofreading", "oversize", "cut", "cut", "ghost", "stopreading", "earlyanswer", "dupanswer"}),
 		FailAfter: rng.Intn(nNames + 1), CutAt: rng.Intn(64)}
 	if stall {
 		plan.FailKind = "stall"
@@ -570,7 +589,7 @@ func vfRunMuxHistory(rep *verifkit.Report, h int, stall bool) {
 	if len(callbacks["late/after-wait"]) != 0 {
 		rep.Violation("mux/callback-for-refused-late-send", "late send was refused but its callback fired", nil)
 	}
-	if plan.FailKind != "none" && plan.FailKind != "exit0" && plan.FailKind != "stopreading" && plan.FailKind != "earlyanswer" && !(plan.FailKind == "cut" && plan.CutAt%len(vfFrameResp("cut-victim", "never-complete")) == 0) {
+	if plan.FailKind != "none" && plan.FailKind != "exit0" && plan.FailKind != "eofreading" && plan.FailKind != "stopreading" && plan.FailKind != "earlyanswer" && !(plan.FailKind == "cut" && plan.CutAt%len(vfFrameResp("cut-victim", "never-complete")) == 0) {
 		// a failing client must surface as an error from waitForResponses
 		if waitErr == nil && len(log.Read) >= plan.FailAfter && log.BadFrame != "" {
 			rep.Violation("mux/failure-not-reported/"+plan.FailKind, "the client's output stream was malformed ("+log.BadFrame+") but waitForResponses returned nil", wUnlocked(h, plan, assign, sends, callbacks, log, closeAfterUS))
@@ -610,7 +629,7 @@ func wUnlocked(h int, plan *vfCliPlan, assign [][]string, sends []vfSendRec, cal
 // TestVerifC10Mux: exactly-once oracle over recorded histories of the real
 // clientProcessRunner with a scripted hostile client.
 func TestVerifC10Mux(t *testing.T) {
-	rep := verifkit.Begin("C10", "mux", "histories of runClient(runInProcess(hostile client)): 1-4 concurrent senders share 2-12 uniquely named requests (optionally one name sent twice), closeSend racing with senders; client script per request {answer, defer+reorder, never}, failure {none, exit 0/1 after j reads, garbage, garbage and then keeps consuming stdin, oversize prefix, frame cut after every byte offset, unknown name, duplicate answer, stops reading stdin, answers before the request is fully read then closes stdin}, 0-2 ms delays inside stdin reads and before answers; every answer carries a unique token; distinct = histories with a request in flight when the failure struck, by (failure, reads, delivered, per-request outcome) signature")
+	rep := verifkit.Begin("C10", "mux", "histories of runClient(runInProcess(hostile client)): 1-4 concurrent senders share 2-12 uniquely named requests (optionally one name sent twice), closeSend racing with senders; client script per request {answer, defer+reorder, never}, failure {none, exit 0/1 after j reads, garbage, garbage and then keeps consuming stdin, closes stdout and keeps consuming stdin, oversize prefix, frame cut after every byte offset, unknown name, duplicate answer, stops reading stdin, answers before the request is fully read then closes stdin}, 0-2 ms delays inside stdin reads and before answers; every answer carries a unique token; distinct = histories with a request in flight when the failure struck, by (failure, reads, delivered, per-request outcome) signature")
 	defer rep.Write()
 	n := verifkit.Scale(1500, 40000)
 	var wg sync.WaitGroup
